@@ -231,6 +231,38 @@ pub fn ev_find(r: &mut Rec, s: &Searcher, hay: &[u8], sp: (usize, usize), an: bo
     r.put(json!(["find", an, early, out, res, 0]));
 }
 
+/// the same search with the span given through Input::range / set_range / set_start+set_end
+/// in every RangeBounds form that denotes s..e (C10)
+pub fn ev_find_range_forms(r: &mut Rec, s: &Searcher, hay: &[u8], sp: (usize, usize), an: bool) {
+    if sp.0 > sp.1 {
+        return;
+    }
+    let (a, b) = sp;
+    let mut forms: Vec<(&'static str, Input)> = vec![
+        ("range a..b", Input::new(hay).range(a..b)),
+        ("set_range", { let mut i = Input::new(hay); i.set_range(a..b); i }),
+        ("set_end+set_start", { let mut i = Input::new(hay); i.set_end(b); i.set_start(a); i }),
+        ("set_span", { let mut i = Input::new(hay); i.set_span(aho_corasick::Span { start: a, end: b }); i }),
+    ];
+    if b > a {
+        forms.push(("range a..=b-1", Input::new(hay).range(a..=(b - 1))));
+    }
+    if b == hay.len() {
+        forms.push(("range a..", Input::new(hay).range(a..)));
+    }
+    if a == 0 {
+        forms.push(("range ..b", Input::new(hay).range(..b)));
+        if b > 0 {
+            forms.push(("range ..=b-1", Input::new(hay).range(..=(b - 1))));
+        }
+    }
+    for (name, input) in forms {
+        let input = input.anchored(anch(an));
+        let (out, res) = outcome(guarded(|| s.try_find(input).map(|m| om2v(&m))));
+        r.put(json!(["find", an, false, out, res, name]));
+    }
+}
+
 pub fn ev_is_match(r: &mut Rec, s: &Searcher, hay: &[u8], sp: (usize, usize), an: bool) {
     if let Searcher::Top(ac) = s {
         let g = guarded(|| ac.is_match(mk_input(hay, sp.0, sp.1, an, false)));
@@ -965,6 +997,9 @@ pub fn run(out_prefix: &str, shards: usize, family: &str, seed: u64, scale: usiz
         "span" => {
             let mut rg = gen::rng(seed, 0xCA11_0005);
             let mut span_triple = |r: &mut Rec, s: &Searcher, c: &Ctx, h: &[u8], sp: (usize, usize), rg: &mut rand::rngs::StdRng| {
+                if supported(c, false) {
+                    ev_find_range_forms(r, s, h, sp, false);
+                }
                 all_flavours(r, s, c, f, h, sp);
                 if sp.0 <= sp.1 {
                     let mut m = h.to_vec();
